@@ -60,3 +60,11 @@ Definition C01_example : tok :=
 Theorem C01_conformance_not_vacuous : wf_tok C01_example = true /\ trees_exact C01_example = true.
 Proof. split; vm_compute; reflexivity. Qed.
 Print Assumptions C01_conformance_not_vacuous.
+
+From WaxProofs Require Import MatcherFacts.
+
+(* the matching engine of the model - the executable the correspondence check runs against the implementation's is_match -
+   decides exactly the language [sem] the theorems above are about: it is sound, and the fuel it is given is adequate *)
+Theorem C01_model_engine_decides_the_language : forall orbit r w, accepts orbit r w = true <-> sem orbit r w.
+Proof. exact accepts_spec. Qed.
+Print Assumptions C01_model_engine_decides_the_language.
